@@ -170,130 +170,15 @@ pub fn judge(ctx: &Ctx, l: &mut Local, p: &Params, site: Site, date: NaiveDate) 
     }
 }
 
-// ------------------------------------------------------------------------------------------------
-// history independence: a call's result may depend on its own arguments only - not on the
-// parameters, place or date of the calls made before it (explicit enumeration of call sequences)
-
-pub fn history_alphabet() -> Vec<PtCase> {
-    use Prayer::*;
-    let base_site = Site::new(52.5, 13.4, 34.0, 1.0);
-    let d = ymd(2024, 6, 10);
-    let base = Params::new(Method::Mwl);
-    let mut v = vec![PtCase::new(&base, base_site, d)];
-    let mut add = |f: &dyn Fn(&mut PtCase)| {
-        let mut c = PtCase::new(&base, base_site, d);
-        f(&mut c);
-        v.push(c);
-    };
-    // one dimension changed at a time, relative to the base call
-    add(&|c| c.site.lat = -52.5);
-    add(&|c| c.site.lon = 13.4 + 15.0);
-    add(&|c| c.site.gmt = 2.0);
-    add(&|c| c.site.elev = 2000.0);
-    add(&|c| c.date = ymd(2024, 6, 11));
-    add(&|c| c.date = ymd(2023, 6, 10));
-    add(&|c| c.date = ymd(2024, 12, 10));
-    add(&|c| c.params = Params::new(Method::Egyptian));
-    add(&|c| c.params = Params::new(Method::UmmAlQurra));
-    add(&|c| c.params.asr_shadow_ratio = AsrShadowRatio::Hanafi);
-    add(&|c| c.params.round_seconds = RoundSeconds::None);
-    add(&|c| c.params.round_seconds = RoundSeconds::AggressiveRounding);
-    add(&|c| c.params.extreme_latitude_method = ExtremeLatitudeMethod::None);
-    add(&|c| c.params.extreme_latitude_method = ExtremeLatitudeMethod::SeventhOfNightFajrIshaAlways);
-    add(&|c| c.params.extreme_latitude_method = ExtremeLatitudeMethod::NearestLatitudeAllPrayersAlways(lat_of(45.0)));
-    add(&|c| {
-        c.params.angles.insert(Fajr, 15.0);
-    });
-    add(&|c| {
-        c.params.angles.insert(Isha, 12.0);
-    });
-    add(&|c| {
-        c.params.angles.insert(Imsaak, 3.0);
-    });
-    add(&|c| {
-        c.params.intervals.insert(Isha, 75.0);
-    });
-    add(&|c| {
-        c.params.intervals.insert(Fajr, 80.0);
-    });
-    add(&|c| {
-        c.params.intervals.insert(Imsaak, 12.5);
-    });
-    add(&|c| {
-        c.params.minutes.insert(Dhuhr, 7.0);
-    });
-    add(&|c| {
-        c.params.minutes.insert(Fajr, -33.0);
-    });
-    add(&|c| c.weather = Some((900.0, -20.0)));
-    add(&|c| c.weather = Some((1010.0, 14.0)));
-    v
-}
-
-/// canonical result of one call: computed by a fresh child process that makes only this call
-pub fn canonical(c: &PtCase) -> Option<R> {
-    let exe = std::env::current_exe().ok()?;
-    let out = std::process::Command::new(exe).args(["single", &serde_json::to_string(c).unwrap()]).output().ok()?;
-    let text = String::from_utf8_lossy(&out.stdout).to_string();
-    let line = text.lines().find_map(|l| l.strip_prefix("RESULT "))?;
-    serde_json::from_str::<R>(line).ok()
-}
-
-pub fn judge_history(ctx: &Ctx) {
-    let alpha = history_alphabet();
-    let canon: Vec<Option<R>> = {
-        let idx: Vec<usize> = (0..alpha.len()).collect();
-        let out: std::sync::Mutex<Vec<(usize, Option<R>)>> = std::sync::Mutex::new(vec![]);
-        par_jobs(ctx, &idx, |i, _l| {
-            let r = canonical(&alpha[*i]);
-            out.lock().unwrap().push((*i, r));
-        });
-        let mut v = out.into_inner().unwrap();
-        v.sort_by_key(|x| x.0);
-        v.into_iter().map(|x| x.1).collect()
-    };
-    if canon.iter().any(|c| c.is_none()) {
-        eprintln!("MACHINERY: could not obtain a canonical single-call result from a child process");
-        std::process::exit(3);
-    }
-    ctx.alphabet("history_alphabet", json!({"calls": alpha.len(), "what": "base call + one dimension changed at a time (site, gmt, elevation, date, method, school, rounding, policy, angles, intervals, minute offsets, weather)", "sequences": "every ordered pair (A then B) and every triple A, B, A - each in a fresh thread; reference: each call alone in a fresh process"}));
-    // all ordered pairs and the A,B,A triples, each sequence on a fresh OS thread (fresh thread-locals)
-    let pairs: Vec<(usize, usize)> = (0..alpha.len()).flat_map(|a| (0..alpha.len()).map(move |b| (a, b))).collect();
-    par_jobs(ctx, &pairs, |(a, b), l| {
-        let (ca, cb) = (alpha[*a].clone(), alpha[*b].clone());
-        let h = std::thread::spawn(move || {
-            let ra = std::panic::catch_unwind(|| ca.run()).ok();
-            let rb = std::panic::catch_unwind(|| cb.run()).ok();
-            let ra2 = std::panic::catch_unwind(|| ca.run()).ok();
-            (ra, rb, ra2)
-        });
-        let (ra, rb, ra2) = h.join().unwrap();
-        l.evals += 3;
-        l.nontrivial += 1;
-        l.count("history_sequences", 1);
-        let mut bad = |which: &str, got: &Option<R>, want: &Option<R>, case: &PtCase| {
-            if got != want {
-                ctx.violation(
-                    "result_independent_of_previous_calls",
-                    &format!("{}_{}_{}", a, b, which),
-                    json!({"sequence": [alpha[*a].to_value(), alpha[*b].to_value(), alpha[*a].to_value()], "position": which}),
-                    json!({"call": case.to_value(), "alone": want.as_ref().map(fmt_r), "in_sequence": got.as_ref().map(fmt_r)}),
-                );
-            }
-        };
-        bad("first", &ra, &canon[*a], &alpha[*a]);
-        bad("second", &rb, &canon[*b], &alpha[*b]);
-        bad("third", &ra2, &canon[*a], &alpha[*a]);
-    });
-}
-
 pub fn explore(ctx: &Ctx) {
     let quick = ctx.tier == Tier::Quick;
-    judge_history(ctx);
+    crate::history::explore(ctx, "params", &crate::history::alphabet_params(), 3);
+    crate::history::explore(ctx, "place_time", &crate::history::alphabet_place_time(), 2);
+    crate::history::explore(ctx, "policy", &crate::history::alphabet_policy(), 2);
     ctx.rule("each (site, date, method, policy) is one case consisting of the base call and every single-parameter perturbation of it (42 minute offsets, 12 intervals, other school, +-1 deg Fajr/Isha angle, 5 weather points); every case is distinct and non-trivial (all perturbation clauses judged)");
     ctx.assume("angle/school/weather locality judged under policy None, and under the default policy only when both runs have no invalid/extreme entry (a fallback legitimately couples Fajr and Isha)");
     ctx.assume("exact equality for untouched entries; +-1 s for shifted ones (truncation)");
-    ctx.assume("history independence: every ordered pair / A,B,A triple of a 26-call alphabet (one dimension changed at a time) is run on a fresh thread and compared with the same calls made alone in fresh processes");
+    ctx.assume("history independence: every call sequence up to depth 3 over the alphabets in coverage.alphabets.history_* is run on a fresh thread and every result compared with the same call made alone in a fresh process");
     let lats = [0.0, 21.4, -21.4, 39.0, -39.0, 50.0, -50.0, 62.0, -62.0];
     let zs: Vec<(f64, f64)> = if quick { vec![(39.8233, 3.0)] } else { vec![(39.8233, 3.0), (-100.0, -7.0)] };
     let dates: Vec<NaiveDate> = if quick { dates_of_years(&[2024]).into_iter().step_by(3).collect() } else { dates_of_years(&YEARS6) };
@@ -321,20 +206,7 @@ pub fn explore(ctx: &Ctx) {
     });
 }
 
-pub fn replay(ctx: &Ctx, clause: &str, case: &Value) {
-    if clause == "result_independent_of_previous_calls" {
-        let seq: Vec<PtCase> = serde_json::from_value(case["sequence"].clone()).expect("sequence");
-        let canon: Vec<Option<R>> = seq.iter().map(canonical).collect();
-        let s2 = seq.clone();
-        let got: Vec<Option<R>> = std::thread::spawn(move || s2.iter().map(|c| std::panic::catch_unwind(|| c.run()).ok()).collect()).join().unwrap();
-        for i in 0..seq.len() {
-            println!("  call {}: alone {:?} / in sequence {:?}", i, canon[i].as_ref().map(fmt_r), got[i].as_ref().map(fmt_r));
-            if canon[i] != got[i] {
-                ctx.violation("result_independent_of_previous_calls", &i.to_string(), case.clone(), json!({"position": i}));
-            }
-        }
-        return;
-    }
+pub fn replay(ctx: &Ctx, _clause: &str, case: &Value) {
     let c: PtCase = serde_json::from_value(case.clone()).expect("case");
     let mut l = Local::default();
     let base: Params = serde_json::from_value(c.extra["base_params"].clone()).unwrap_or(c.params.clone());
